@@ -42,9 +42,17 @@ func (f *Flow) absorb(g Flow) {
 
 func (x *Exec) block(st *State, stmts []ast.Stmt) Flow {
 	out := Flow{next: st}
-	for _, s := range stmts {
+	for i, s := range stmts {
 		if out.next == nil {
 			break
+		}
+		if ls, ok := s.(*ast.LabeledStmt); ok && x.ct != nil {
+			if spec, ok := x.ct.Loops["label:"+ls.Label.Name]; ok {
+				f := x.gotoCut(out.next, ls, stmts[i+1:], spec)
+				out.next = f.next
+				out.absorb(f)
+				return out
+			}
 		}
 		f := x.stmt(out.next, s, "")
 		out.next = f.next
@@ -628,6 +636,7 @@ func (x *Exec) cutLoop(st *State, ls *LoopSpec, id, label string, nodes []ast.No
 	if c.K != 2 {
 		sB := h.clone()
 		sB.assume(c)
+		headSnap := sB.clone()
 		var dec0 Term
 		autoDec := x.autoDec
 		x.autoDec = nil
@@ -653,6 +662,16 @@ func (x *Exec) cutLoop(st *State, ls *LoopSpec, id, label string, nodes []ast.No
 				for i, t := range extraInv(f.next) {
 					x.obligeNamed(f.next, fmt.Sprintf("inv-step[loop%s.auto%d]", id, i), "inv-step", t, pos, "implicit range invariant")
 				}
+			}
+			for si2, sc := range ls.Steps {
+				env := mkEnv(f.next)
+				env.prev = headSnap
+				g, facts := env.evalWithFacts(sc.Expr)
+				probe := f.next.clone()
+				for _, ft := range facts {
+					probe.assume(ft)
+				}
+				x.obligeNamed(probe, fmt.Sprintf("step[loop%s.%d]", id, si2), "step", g, pos, sc.Text)
 			}
 			for _, fi := range frames {
 				r := x.vc.fresh("fr", "Int")
@@ -1033,5 +1052,73 @@ func (x *Exec) labeled(st *State, s *ast.LabeledStmt) Flow {
 	if len(f.gotos[name]) > 0 {
 		x.unsup(s.Pos(), "backward goto %s needs a 'label %s: invariant'", name, name)
 	}
+	return f
+}
+
+// gotoCut: a label that is the target of a backward goto is a cut point: the
+// rest of the enclosing block is the "loop body"; `goto label` is the back
+// edge, falling off the end of the block leaves the loop.
+func (x *Exec) gotoCut(st *State, ls *ast.LabeledStmt, rest []ast.Stmt, spec *LoopSpec) Flow {
+	name := ls.Label.Name
+	id := "label:" + name
+	body := append([]ast.Stmt{ls.Stmt}, rest...)
+	mkEnv := func(s *State) *SpecEnv { return x.specEnv(s) }
+	for i, inv := range spec.Invariants {
+		g, facts := mkEnv(st).evalWithFacts(inv.Expr)
+		for _, f := range facts {
+			st.assume(f)
+		}
+		x.obligeNamed(st, fmt.Sprintf("inv-entry[%s.%d]", id, i), "inv-entry", g, ls.Pos(), inv.Text)
+	}
+	h := st.clone()
+	assigned := map[types.Object]bool{}
+	eff := newEffects()
+	for _, n := range body {
+		x.collectAssigned(n, assigned)
+		x.vc.effectsOfNode(eff, x.pkg, n, nil, map[*types.Func]bool{})
+	}
+	var objs []types.Object
+	for o := range assigned {
+		if _, ok := h.vars[o]; ok {
+			objs = append(objs, o)
+		}
+	}
+	sort.Slice(objs, func(i, j int) bool { return objs[i].Pos() < objs[j].Pos() })
+	for _, o := range objs {
+		old := h.vars[o]
+		if old.Fn != nil {
+			continue
+		}
+		h.vars[o] = Value{T: x.vc.fresh(o.Name(), old.T.Sort), Ty: old.Ty}
+	}
+	if eff.All {
+		x.vc.havocAll(h, eff.Preserved)
+	} else {
+		x.havocKinds(h, eff, st)
+	}
+	for _, o := range objs {
+		v := h.vars[o]
+		if v.Fn == nil {
+			x.vc.assumeFacts(h, v.T, v.Ty)
+		}
+	}
+	for _, inv := range spec.Invariants {
+		g, facts := mkEnv(h).evalWithFacts(inv.Expr)
+		for _, f := range facts {
+			h.assume(f)
+		}
+		h.assume(g)
+	}
+	f := x.block(h, body)
+	for _, bs := range f.gotos[name] {
+		for i, inv := range spec.Invariants {
+			g, facts := mkEnv(bs).evalWithFacts(inv.Expr)
+			for _, ft := range facts {
+				bs.assume(ft)
+			}
+			x.obligeNamed(bs.clone(), fmt.Sprintf("inv-step[%s.%d]", id, i), "inv-step", g, ls.Pos(), inv.Text)
+		}
+	}
+	delete(f.gotos, name)
 	return f
 }
